@@ -1,5 +1,6 @@
 import WhVerif.Lemmas.C08Example
 import WhVerif.Lemmas.C08Pos
+import WhVerif.Lemmas.C08ScaleProd
 /-!
 # C08 — genotyping reports the exact posterior of its HMM; GT, GL and GQ agree.
 
@@ -74,6 +75,20 @@ theorem scaling_irrelevant [Field K] (inst : Inst) (p : Params K) (S S' : Scal K
   unfold likelihood
   rw [likelihoodSel_scale _ _ S hS, likelihoodSel_scale _ _ S' hS']
 
+/-- **the scaled recurrences are the unscaled ones times the product of the (inverse) scaling factors** – explicitly,
+over every field and for *every* scaling (also a zero divisor: `x / 0 = x·0⁻¹`): the forward projection column of
+column `c` carries `Π_{c' ≤ c} 1/fw c'`, the backward column written after `d + 1` backward steps carries
+`Π_{j ≤ d} 1/bw (n-1-j)`, and every `forward_backward` numerator of column `c` (hence `normalization`) carries
+`fbFactor = Π_{c' ≤ c} 1/fw c' · Π_{c' > c} 1/bw c' · 1/bw2 c`.  `scaling_irrelevant` is the corollary for non-zero factors. -/
+theorem scaled_equals_unscaled_times_factors [Field K] (F : Frame) (W : Weights K) (S : Scal K) (c : Nat) (hc : c < F.nCols) :
+    (∀ k, tblAt (fwdTbl F W S c) k = (∏ c' ∈ range (c + 1), (S.fw c')⁻¹) * tblAt (fwdTbl F W Scal.one c) k) ∧
+    (∀ d, d + 2 ≤ F.nCols → ∀ k, tblAt (bwdTbl F W S d) k =
+        (∏ j ∈ range (d + 1), (S.bw (F.nCols - 1 - j))⁻¹) * tblAt (bwdTbl F W Scal.one d) k) ∧
+    (∀ sel, numer F W S c sel = fbFactor S F.nCols c * numer F W Scal.one c sel) ∧
+    total F W S c = fbFactor S F.nCols c * total F W Scal.one c :=
+  ⟨fwdTbl_scale_prod F W S c, fun d hd => bwdTbl_scale_prod F W S d hd, numer_scale_prod F W S c hc,
+   numer_scale_prod F W S c hc _⟩
+
 /-! ## the likelihoods are the posterior of the HMM -/
 
 /-- **forward–backward = brute force**: for every well-formed instance, every column and every non-zero
@@ -129,6 +144,12 @@ example : likelihood exInst exParams exScal 1 0 2 = likelihood exInst exParams S
 example : ∑ g ∈ range 3, likelihood exInst exParams exScal 1 0 g = 1 :=
   likelihoods_sum_to_one exInst exParams exScal 1 0 (by decide +kernel)
 example : exParams.Pos := exParams_pos
+/-- the explicit factor on the concrete instance: hypotheses satisfiable, factor not 1 -/
+example : (1 : Nat) < exInst.frame.nCols := by decide
+example : fbFactor exScal exInst.frame.nCols 1 ≠ 1 := by decide +kernel
+example : total exInst.frame (exInst.weights exParams) exScal 1 =
+    fbFactor exScal exInst.frame.nCols 1 * total exInst.frame (exInst.weights exParams) Scal.one 1 :=
+  (scaled_equals_unscaled_times_factors exInst.frame (exInst.weights exParams) exScal 1 (by decide)).2.2.2
 example : (∀ g, 0 ≤ likelihood exInst exParams exScal 1 0 g) ∧ ∑ g ∈ range 3, likelihood exInst exParams exScal 1 0 g = 1 :=
   likelihoods_are_distribution exInst exParams exScal (by decide) exParams_pos exScal_nonZero 1 (by decide) 0
 example : gqMass (likelihood exInst exParams exScal 1 0) 1 = 1 - posterior exInst exParams 1 0 1 :=
